@@ -472,8 +472,17 @@ func c04Stress(res *Result, rounds int) {
 				}
 			}(g)
 		}
-		wg.Wait()
-		cli.Close()
+		// a request shadowed by another with the same id is never completed: bound the wait
+		done := make(chan struct{})
+		go func() { wg.Wait(); close(done) }()
+		hung := false
+		select {
+		case <-done:
+			cli.Close()
+		case <-time.After(5 * time.Second):
+			hung = true
+			go cli.Close()
+		}
 		peer.Close()
 		res.Case(fmt.Sprintf("stress/%d", round), true, "8 goroutines x 6 batches x 16 entries")
 		res.Count("free-running-stress")
@@ -489,6 +498,9 @@ func c04Stress(res *Result, rounds int) {
 		case m := <-bad:
 			res.Violatef("a batch entry completed with another request's reply", fmt.Sprintf("free-running stress round %d", round), "%s", m)
 		default:
+		}
+		if hung && len(res.Violations) == 0 {
+			res.Violatef("a batch never completed although every request was answered and its context ended", fmt.Sprintf("free-running stress round %d", round), "8 goroutines x 6 batches x 16 entries, 500ms contexts; still waiting after 5s")
 		}
 		if len(res.Violations) > 0 {
 			return
